@@ -26,30 +26,30 @@ fn ssub(prop: &'static str, name: &'static str, focus: Focus, mt: Option<u8>, ma
 fn s_subs(prop: &'static str) -> Vec<(SSub, u32, u32, usize)> {
     match prop {
         "C01" => vec![
-            (ssub("C01", "c01-st", Focus::General, None, 40), 6000, 120_000, 16),
-            (ssub("C01", "c01-mt", Focus::General, Some(4), 30), 600, 12_000, 4),
-            (ssub("C01", "c01-mt8", Focus::General, Some(8), 30), 150, 3_000, 2),
+            (ssub("C01", "c01-st", Focus::General, None, 40), 120_000, 1_500_000, 16),
+            (ssub("C01", "c01-mt", Focus::General, Some(4), 30), 5000, 80_000, 4),
+            (ssub("C01", "c01-mt8", Focus::General, Some(8), 30), 800, 12_000, 2),
         ],
         "C07" => vec![
-            (ssub("C07", "c07-st", Focus::SameTime, None, 40), 6000, 120_000, 16),
-            (ssub("C07", "c07-mt", Focus::SameTime, Some(4), 30), 800, 16_000, 4),
-            (ssub("C07", "c07-mt8", Focus::SameTime, Some(8), 30), 150, 3_000, 2),
+            (ssub("C07", "c07-st", Focus::SameTime, None, 40), 120_000, 1_500_000, 16),
+            (ssub("C07", "c07-mt", Focus::SameTime, Some(4), 30), 5000, 80_000, 4),
+            (ssub("C07", "c07-mt8", Focus::SameTime, Some(8), 30), 800, 12_000, 2),
         ],
         "C08" => vec![
-            (ssub("C08", "c08-valid-st", Focus::Validation, None, 40), 6000, 120_000, 16),
-            (ssub("C08", "c08-valid-mt", Focus::Validation, Some(4), 30), 500, 10_000, 4),
+            (ssub("C08", "c08-valid-st", Focus::Validation, None, 40), 100_000, 1_500_000, 16),
+            (ssub("C08", "c08-valid-mt", Focus::Validation, Some(4), 30), 4000, 60_000, 4),
         ],
         "C09" => vec![
-            (ssub("C09", "c09-st", Focus::Cancel, None, 40), 6000, 120_000, 16),
-            (ssub("C09", "c09-mt", Focus::Cancel, Some(4), 30), 800, 16_000, 4),
+            (ssub("C09", "c09-st", Focus::Cancel, None, 40), 120_000, 1_500_000, 16),
+            (ssub("C09", "c09-mt", Focus::Cancel, Some(4), 30), 5000, 80_000, 4),
         ],
         "C10" => vec![
-            (ssub("C10", "c10-general-st", Focus::Periodic, None, 40), 3000, 60_000, 16),
-            (ssub("C10", "c10-general-mt", Focus::Periodic, Some(4), 30), 300, 6_000, 4),
+            (ssub("C10", "c10-general-st", Focus::Periodic, None, 40), 50_000, 800_000, 16),
+            (ssub("C10", "c10-general-mt", Focus::Periodic, Some(4), 30), 2500, 40_000, 4),
         ],
         "C18" => vec![
-            (ssub("C18", "c18-st", Focus::Clock, None, 40), 6000, 120_000, 16),
-            (ssub("C18", "c18-mt", Focus::Clock, Some(4), 30), 500, 10_000, 4),
+            (ssub("C18", "c18-st", Focus::Clock, None, 40), 120_000, 1_500_000, 16),
+            (ssub("C18", "c18-mt", Focus::Clock, Some(4), 30), 4000, 60_000, 4),
         ],
         _ => vec![],
     }
@@ -77,9 +77,9 @@ fn run_property(prop: &'static str, tier: &str, seed: u64) -> i32 {
                 ctx.run(&s, n, w);
             }
             if prop == "C10" {
-                let n = ctx.n(3000, 60_000);
+                let n = ctx.n(40_000, 600_000);
                 ctx.run(&C10Sub { mt: None }, n, 16);
-                let n = ctx.n(200, 4_000);
+                let n = ctx.n(500, 10_000);
                 ctx.run(&C10Sub { mt: Some(4) }, n, 4);
             }
             core::set_delay_mode(0, seed);
